@@ -16,3 +16,16 @@ func At(point string, key any) {
 		y(point, key)
 	}
 }
+
+// TypeTag is the key of a codec registry entry: a reflect.Type and a tag.
+type TypeTag struct {
+	Typ any
+	Tag string
+}
+
+// AtTag is At with a registry key as the key.
+func AtTag(point string, typ any, tag string) {
+	if y := Yield; y != nil {
+		y(point, TypeTag{Typ: typ, Tag: tag})
+	}
+}
